@@ -110,8 +110,12 @@ class CacheEngine(Engine):
             key = r.choice(keys)
             if t < 0.45:
                 ops.append({'op': 'goc', 'path': path, 'key': key, 'val': _values_for(ctype, r), 'raise': r.random() < 0.15, 'force': r.random() < 0.2})
+                if ctype != 'mem' and r.random() < 0.2:
+                    ops[-1]['scribble'] = True      # the caller changes the returned object in place: the stored value is not the caller's object
             elif t < 0.65:
                 ops.append({'op': 'get', 'path': path, 'key': key})
+                if ctype != 'mem' and r.random() < 0.2:
+                    ops[-1]['scribble'] = True
             elif t < 0.85 and ctype != 'mem':
                 mode = r.choice(['truncate', 'truncate', 'truncate', 'empty', 'garbage', 'misdirect', 'remove'])
                 op = {'op': 'damage', 'path': path, 'key': key, 'mode': mode, 'frac': r.choice([0.0, 0.01, 0.3, 0.5, 0.9, 0.999]), 'abs': r.choice([None, 1, -1, 7])}
@@ -158,7 +162,8 @@ class CacheEngine(Engine):
         pools = {}
         for m in methods:
             for p in m['params']:
-                pools.setdefault(p['name'], [1, True, 1.0, 0, False, None, 'x', '1', [1, 2], {'k': [1], 'a': 2, 'z': {'q': 1, 'b': None}}, 2, 'y', 0.5, -1, {'b': 1, 'a': 2}])
+                pools.setdefault(p['name'], [1, True, 1.0, 0, False, None, 'x', '1', [1, 2], {'k': [1], 'a': 2, 'z': {'q': 1, 'b': None}}, 2, 'y', 0.5, -1, {'b': 1, 'a': 2},
+                                                {'$float': 'nan'}, {'$float': 'inf'}, {'$float': '-inf'}, 'null', 'NaN'])
         ops = []
         for _ in range(r.randint(3, 16)):
             if r.random() < 0.08:
@@ -168,6 +173,10 @@ class CacheEngine(Engine):
                 # an interrupted write / damaged entry files between calls (every entry file emptied or truncated)
                 ops.append({'op': 'damage_all', 'mode': r.choice(['empty', 'half', 'minus1'])})
                 continue
+            if r.random() < 0.04:
+                # the object gets a fresh cache assigned to its cache attribute (the decorator must look the attribute up per call)
+                ops.append({'op': 'newcache', 'obj': r.randrange(2)})
+                continue
             mi = r.randrange(nm)
             m = methods[mi]
             binding = {}
@@ -175,7 +184,7 @@ class CacheEngine(Engine):
                 if p['default'] is not None and r.random() < 0.5:
                     binding[p['name']] = p['default']['v']
                 else:
-                    binding[p['name']] = r.choice(pools[p['name']][: r.choice([3, 6, 14])])
+                    binding[p['name']] = r.choice(pools[p['name']][: r.choice([3, 6, 14, 20])])
             pos_params = [p for p in m['params'] if not p['kwonly']]
             # spelling: k positional, rest keyword (random order), defaults spelled or omitted
             k = r.randint(0, len(pos_params))
@@ -191,7 +200,8 @@ class CacheEngine(Engine):
             # equal mappings built in another insertion order are the same argument value
             pos = [_reorder(v, r) for v in pos]
             kw = [[k_, _reorder(v, r)] for k_, v in kw]
-            op = {'op': 'call', 'm': mi, 'pos': pos, 'kw': kw, 'binding': binding}
+            # two objects of the class, each with its own cache attribute (and its own state: the result names the object)
+            op = {'op': 'call', 'm': mi, 'pos': pos, 'kw': kw, 'binding': binding, 'obj': 0 if r.random() < 0.6 else 1}
             t = r.random()
             if t < 0.12:
                 op['force_cache'] = True
@@ -249,10 +259,12 @@ class CacheEngine(Engine):
                         calls.append(1)
                         if op['raise']:
                             raise RuntimeError('computer failed')
-                        return realize(op['val'])
+                        return copy.deepcopy(realize(op['val']))     # (the caller may scribble over what it gets back)
                     try:
                         v = nav(op['path']).get_or_compute(op['key'], computer, force=op['force'])
                         o['ret'] = canon(ctype, v)
+                        if op.get('scribble'):
+                            _scribble(v)
                     except Exception as e:
                         o['exc'] = [type(e).__name__, str(e)[:120]]
                     o['calls'] = len(calls)
@@ -260,6 +272,8 @@ class CacheEngine(Engine):
                     try:
                         v = nav(op['path']).get(op['key'])
                         o['ret'] = NOVAL if v is tc.NO_VALUE else canon(ctype, v)
+                        if op.get('scribble'):
+                            _scribble(v)
                     except Exception as e:
                         o['exc'] = [type(e).__name__, str(e)[:120]]
                 elif op['op'] == 'damage':
@@ -302,15 +316,22 @@ class CacheEngine(Engine):
         log = []
         counter = [0]
 
-        def body(name, binding):
+        def body(name, binding, oid=0):
             counter[0] += 1
             log.append([name, counter[0]])
-            return {'m': name, 'n': counter[0], 'b': {k: binding[k] for k in sorted(binding)}}
+            # (non-finite floats are outside what a JSON cache stores faithfully: the result names them by their repr)
+            return {'m': name, 'n': counter[0], 'o': oid, 'b': {k: (binding[k] if not (isinstance(binding[k], float) and binding[k] != binding[k] or binding[k] in (float('inf'), float('-inf'))) else {'$float': repr(binding[k])}) for k in sorted(binding)}}
+
+        def real(v):
+            # scenario files are strict JSON: non-finite floats are written as markers
+            if isinstance(v, dict) and set(v) == {'$float'}:
+                return float(v['$float'])
+            return v
 
         def build():
             deco_caches = {}
             g = {'cached': tc.cached, '_body': body, 'DECO': deco_caches}
-            src = ['class K:', '    def __init__(self, cache):', '        self.cache = cache']
+            src = ['class K:', '    def __init__(self, cache, oid=0):', '        self.cache = cache', '        self.oid = oid']
             for mi, m in enumerate(scn['methods']):
                 if m['source'] == 'deco':
                     deco_caches[mi] = self._mk(ctx, ctype, d / f'deco{mi}')
@@ -331,16 +352,22 @@ class CacheEngine(Engine):
                 names = [p['name'] for p in m['params']]
                 src.append(f'    @cached({", ".join(args)})')
                 src.append(f'    def {m["name"]}({", ".join(sig)}):')
-                src.append(f'        return _body({m["name"]!r}, dict({", ".join(f"{n}={n}" for n in names)}))')
+                src.append(f'        return _body({m["name"]!r}, dict({", ".join(f"{n}={n}" for n in names)}), self.oid)')
             exec('\n'.join(src), g)
-            return g['K'](self._mk(ctx, ctype, d / 'own'))
+            return [g['K'](self._mk(ctx, ctype, d / cachedirs[0]), 0), g['K'](self._mk(ctx, ctype, d / cachedirs[1]), 1)]
 
-        obj = build()
+        cachedirs = ['own', 'own1']
+        objs = build()
         obs = []
         for op in scn['ops']:
             o = {}
             if op['op'] == 'restart':
-                obj = build()
+                objs = build()
+                obs.append(o)
+                continue
+            if op['op'] == 'newcache':
+                cachedirs[op['obj']] = f'own{op["obj"]}_{len(obs)}'
+                objs[op['obj']].cache = self._mk(ctx, ctype, d / cachedirs[op['obj']])
                 obs.append(o)
                 continue
             if op['op'] == 'damage_all':
@@ -353,7 +380,8 @@ class CacheEngine(Engine):
                 obs.append(o)
                 continue
             m = scn['methods'][op['m']]
-            kw = {k: v for k, v in op['kw']}
+            kw = {k: real(v) for k, v in op['kw']}
+            op = dict(op, pos=[real(v) for v in op['pos']])
             if op.get('force_cache'):
                 kw['force_cache'] = True
             if op.get('only_cache'):
@@ -362,7 +390,7 @@ class CacheEngine(Engine):
                 kw['store_cache_value'] = op['store']['v']
             before = len(log)
             try:
-                v = getattr(obj, m['name'])(*op['pos'], **kw)
+                v = getattr(objs[op.get('obj', 0)], m['name'])(*op['pos'], **kw)
                 o['ret'] = NOVAL if v is tc.NO_VALUE else V.canon_json(v)
             except Exception as e:
                 o['exc'] = [type(e).__name__, str(e)[:150]]
@@ -501,6 +529,7 @@ class CacheEngine(Engine):
             discs.append({'prop': 'C16', 'inv': inv, 'op': i, 'msg': msg, 'detail': detail})
 
         entries = {}
+        gen_of = {}
         damaged_any = False
         stats = {'hits_other_spelling': 0, 'forced': 0, 'only_cache': 0, 'stored': 0, 'fired': {}}
         last_spelling = {}
@@ -517,9 +546,14 @@ class CacheEngine(Engine):
                     entries.clear()      # nothing intact is stored any more: every binding has to be recomputed, never returned damaged
                     damaged_any = True
                 continue
+            if op['op'] == 'newcache':
+                # the object's own cache is a new, empty one from here on (methods cached in a decorator-level cache are unaffected)
+                gen_of[op['obj']] = i
+                continue
             m = scn['methods'][op['m']]
             binding = {k: v for k, v in op['binding'].items() if k not in m['ignore']}
-            scope = (op['m'],) if m['source'] == 'deco' else ('own', m['name'], m['version'])
+            oid = op.get('obj', 0)
+            scope = (op['m'],) if m['source'] == 'deco' else ('own', oid, gen_of.get(oid, -1), m['name'], m['version'])
             key = (scope, V.digest(V.canon_json(binding)))
             ent = entries.get(key, _MISSING)
             execs = o.get('execs', [])
@@ -558,7 +592,7 @@ class CacheEngine(Engine):
                     if not execs:
                         continue
                 full = {k: op['binding'][k] for k in sorted(op['binding'])}
-                val = V.canon_json({'m': m['name'], 'n': execs[-1][1], 'b': full})
+                val = V.canon_json({'m': m['name'], 'n': execs[-1][1], 'o': oid, 'b': full})
             if o.get('ret') != val:
                 d('I-value', i, 'call did not return the value just computed/supplied', got=o.get('ret'), expected=val, call=[m['name'], op['pos'], op['kw']])
             entries[key] = val
@@ -586,6 +620,19 @@ class CacheEngine(Engine):
                     c = copy.deepcopy(scn)
                     c['ops'][i]['val'] = {'json': 1}
                     yield c
+
+
+def _scribble(v):
+    """the caller changes the object it was handed, in place"""
+    try:
+        if isinstance(v, list):
+            v.append('scribbled')
+        elif isinstance(v, dict):
+            v['scribbled'] = 1
+        elif isinstance(v, np.ndarray) and v.size and v.flags.writeable:
+            v.flat[0] = v.flat[0] + 1 if v.dtype.kind in 'iuf' else v.flat[0]
+    except Exception:
+        pass
 
 
 def _reorder(v, r):
